@@ -497,6 +497,22 @@ def element_api(ctx, L):
                     dT = min(abs(dT), abs(abs(dT) - abs(P0)))
                     if dT > 1e-6 * abs(P0):
                         fail("api:T-constant", dict(desc, what="T changes along a two-body orbit", T_before=T0, T_after=o2.T, P=P0, t_after=sim.t))
+                # ---- sim.orbits() against the per-particle routes in a three-body system (Jacobi by default, or explicit primary)
+                sim3 = _mk(L, t, mode, rng, two_body=False)
+                os3 = sim3.orbits()
+                osx = sim3.orbits(primary=sim3.particles[0])
+                for i3 in range(sim3.N - 1):
+                    pj = sim3.particles[i3 + 1]
+                    oj, ojx = pj.orbit(), pj.orbit(primary=sim3.particles[0])
+                    for g in GETTERS:
+                        ctx.evaluations += 1
+                        for nme, got, want, tol in (("sim.orbits()[%d]" % i3, getattr(os3[i3], g), getattr(oj, g), 1e-8),
+                                                    ("sim.orbits(primary=particles[0])[%d]" % i3, getattr(osx[i3], g), getattr(ojx, g), 0.0)):
+                            bad = angdiff(got, want) > tol if (g in ANGLES and tol > 0) else abs(got - want) > tol * (1 + abs(want))
+                            if bad:
+                                fail("api:orbits", {"kind": "element-api", "t": sim3.t, "mode": mode, "index": i3 + 1,
+                                                         "what": "%s.%s differs from particles[%d].orbit(...).%s" % (nme, g, i3 + 1, g),
+                                                         "got": got, "want": want})
                 # ---- setters: set then get; the other elements keep their values
                 for sname in SETTERS:
                     sim = _mk(L, t, mode, rng, two_body=False)
@@ -539,13 +555,17 @@ def element_api(ctx, L):
                     if bad:
                         fail("api:setter-" + sname, dict(d2, what="p.%s = x; p.%s gives something else" % (sname, sname), got=got))
                     # invariance of what the setter is documented to keep (shape / orientation)
-                    keep = {"a": ["e", "inc"], "P": ["e", "inc"], "e": ["a", "inc"], "inc": ["a", "e"], "Omega": ["a", "e", "inc"],
-                            "omega": ["a", "e", "inc"], "pomega": ["a", "e", "inc"], "f": ["a", "e", "inc"], "M": ["a", "e", "inc"],
-                            "l": ["a", "e", "inc"], "theta": ["a", "e", "inc"], "T": ["a", "e", "inc"],
+                    cl = ["a", "e", "inc", "Omega", "omega", "f"]
+                    keep = {"a": [x for x in cl if x != "a"], "P": [x for x in cl if x != "a"], "e": [x for x in cl if x != "e"],
+                            "inc": [x for x in cl if x != "inc"], "Omega": [x for x in cl if x != "Omega"],
+                            "omega": [x for x in cl if x != "omega"], "pomega": ["a", "e", "inc", "Omega", "f"],
+                            "f": cl[:5], "M": cl[:5], "l": cl[:5], "theta": cl[:5], "T": cl[:5],
                             "pal_h": ["a", "pal_k", "pal_ix", "pal_iy"], "pal_k": ["a", "pal_h", "pal_ix", "pal_iy"],
                             "pal_ix": ["a", "pal_h", "pal_k", "pal_iy"], "pal_iy": ["a", "pal_h", "pal_k", "pal_ix"]}[sname]
                     for kname in keep:
-                        if abs(getattr(o1, kname) - getattr(o0, kname)) > 1e-7 * (1 + abs(getattr(o0, kname))):
+                        b0, b1 = getattr(o0, kname), getattr(o1, kname)
+                        moved = angdiff(b1, b0) > 1e-6 if kname in ANGLES else abs(b1 - b0) > 1e-7 * (1 + abs(b0))
+                        if moved:
                             fail("api:setter-" + sname, dict(d2, what="p.%s = x changed %s" % (sname, kname), before=getattr(o0, kname), after=getattr(o1, kname)))
                     if angdiff((sim.t - o1.T) * abs(o1.n), o1.M) > 1e-7 * (1 + abs(sim.t) * abs(o1.n)):
                         fail("api:T-clock", dict(d2, what="after the setter (sim.t - p.T)|n| != M (mod 2pi)", T=o1.T, M=o1.M, n=o1.n))
